@@ -257,6 +257,12 @@ def derived_ok(o, L, cls):
     s = o.sorted(key=key, reverse=True)
     if not peq(s.items(multi=True), sorted(L, key=key, reverse=True)):
         return 'sorted_reverse'
+    # a key with ties (pairs of one key compare equal): sorting is stable, also with reverse=True
+    tie = lambda kv: kv[0].i
+    for rev in (False, True):
+        s = o.sorted(key=tie, reverse=rev)
+        if not peq(s.items(multi=True), sorted(L, key=tie, reverse=rev)):
+            return 'sorted_ties_reverse' if rev else 'sorted_ties'
     for rev in (False, True):
         sv = o.sortedvalues(reverse=rev)
         pools = {}
